@@ -340,6 +340,13 @@ def synthesisers():
             # coefficient dtypes other than int64 (uint8, int16, float32, bool): the spellings agree on the dtype of the
             # result too (seeded change C08-12: only the method spelling hands where=True on)
             p = P(r, shape=shape, nterms=max(nterms, 1), maxexp=1 if nm == "prod" else 3, lim=2, **({"dtype": dt} if dt else {}))
+            if nm in ("amax", "amin", "max", "min", "argmax", "argmin") and r.random() < .5:
+                # elements that share their leading term and differ below it: every spelling has to break the tie the same
+                # way (seeded change C08-16: a shortcut taken only when no keyword arrives, with the opposite tie-break)
+                q0, q1 = numpoly.variable(2)
+                lead = gen.choice(r, [q0 ** 2, q0 * q1, q1 ** 3, 2 * q0])
+                low = [int(x) for x in r.permutation(6)[: int(numpy.prod(shape))]]
+                p = numpoly.polynomial([lead + c + (q1 if k % 2 and lead is not q1 ** 3 else 0) * 0 for k, c in enumerate(low)]).reshape(shape)
             axis = gen.choice(r, [None, 0, -1]) if nm not in ("argmax", "argmin") else gen.choice(r, [None, 0])
             return [p], ({} if axis is None else {"axis": axis})
         extra = []
